@@ -138,6 +138,24 @@ def adversarial_designs():
             return m
         yield (f"adv/self-clash/bundle-members/{order}", b6)
 
+        def b6w(order=order):
+            # the same with members of different widths: a silent replacement also breaks the width of a connection
+            L2 = h.ExternalModule(name="LF2", port_list=[h.Inout(name="a", width=2), h.Inout(name="b")], desc="", domain="adv")
+            L = leaf()
+            Sub = h.Bundle(name="SubBw")
+            Sub.add(h.Signal(name="b", width=2))
+            Z = h.Bundle(name="ZBw")
+            parts = [lambda: Z.add(h.Signal(name="a_b")), lambda: Z.add(Sub(), name="a")]
+            for f in (parts if order == 0 else parts[::-1]):
+                f()
+            m = h.Module(name="AdvSelfW")
+            m.v = h.Signal()
+            m.z = Z()
+            m.l1 = L()(a=m.z.a_b, b=m.v)
+            m.l2 = L2()(a=m.z.a.b, b=m.v)
+            return m
+        yield (f"adv/self-clash/bundle-members-widths/{order}", b6w)
+
         def b7(order=order):
             P1 = h.ExternalModule(name="P1", port_list=[h.Inout(name="a_b"), h.Inout(name="c")], desc="", domain="adv")
             P2 = h.ExternalModule(name="P2", port_list=[h.Inout(name="b"), h.Inout(name="c")], desc="", domain="adv")
@@ -204,7 +222,7 @@ def run(ctx):
                          "before or after the construct; invented names that clash with each other (bundle members a_b vs a.b, "
                          "implicit signals i0.a_b vs i0_a.b); oracle: reference meaning + identity of designer objects; "
                          "all distinct and non-trivial",
-                    bound="5 naming rules x 3 suffixes x 2 orders + 4 self-clash designs", key_of=lambda c: c[0])
+                    bound="5 naming rules x 3 suffixes x 2 orders + 6 self-clash designs", key_of=lambda c: c[0])
     return INFO
 
 
